@@ -108,7 +108,7 @@ def make_geo_array(rng, kind, subtype, n, derive_steps=0, nan_p=0.0, all_missing
 
 
 INDEX_KINDS = ['range', 'named', 'unnamed', 'nonunique', 'str', 'range_named', 'range_step',
-               'hilbert_distance', 'multi', 'multi_unnamed']
+               'hilbert_distance', 'multi', 'multi_unnamed', 'decreasing', 'nonunique_shuffled']
 
 
 def make_index(rng, kind, n):
@@ -125,6 +125,14 @@ def make_index(rng, kind, n):
         return pd.Index(vals)
     if kind == 'nonunique':
         return pd.Index(sorted(rng.randrange(0, max(2, n // 2)) for _ in range(n)), name='dup')
+    if kind == 'decreasing':
+        return pd.Index(list(range(200 + n, 200, -1)), name='dec')
+    if kind == 'nonunique_shuffled':
+        vals = [j // 2 for j in range(n)]
+        rng.shuffle(vals)
+        if n > 1 and vals == sorted(vals):
+            vals = vals[::-1]
+        return pd.Index(vals, name='dupsh')
     if kind == 'str':
         return pd.Index([f's{j:03d}' for j in range(n)])
     if kind == 'range_named':
